@@ -17,6 +17,7 @@ import json
 from vlib import coq_list, coq_str, canon_hash
 import exprlib as X
 from props.C11 import gen_analytic
+from props import C04if
 
 HEADER = """From Coq Require Import String ZArith List Bool Arith.
 From V Require Import Core.Terminal Core.SExpr Core.Classical Model.IntegralsM.
@@ -206,6 +207,8 @@ def gen_case(rng, tier, idx, budget=None):
 
 
 def weight(c):
+    if c.get("iform") is not None:
+        return C04if.weight(c)
     w = {1: 1, 2: 3, 3: 12}[c["ldim"]] * len(c["patches"])
     if c.get("grad"):
         w *= 4
@@ -296,9 +299,38 @@ def simpler_cases(c):
             yield dict(c, region={"t": "patch", "p": i})
 
 
+# Findings of the interface family that are proposed for /verif/known_findings.json (see the builder's report).  Until
+# they are listed there (or repaired in /repo: patches fix-logicalexpr-restrictions / fix-linear-interface-pieces) they
+# are matched here, so that the unchanged tree raises no alarm; an entry with the same id in known_findings.json wins.
+PROPOSED_KNOWN = [
+    {"property": "C04", "status": "known", "id": "C04-interface-normal-derivative-not-pulled-back",
+     "what": "interface integral on a mapped multi-patch domain: LogicalExpr has no arm for Dn / jump / avg: Dn(w) is carried "
+             "over to the logical domain unchanged, so avg(Dn(v)), jump(Dn(v)), minus(Dn(v)) are lowered with the LOGICAL "
+             "gradient (grad^ v^ . n instead of J^-T grad^ v^ . n) and Dn(plus(u)) stays an unevaluated NormalDerivative",
+     "match": {"family": "interface-derivatives", "feature": "normal-derivative"}},
+    {"property": "C04", "status": "known", "id": "C04-interface-restriction-of-derivative-refused",
+     "what": "interface integral on a mapped multi-patch domain: the restriction of a compound expression (minus(dx(u)), "
+             "plus(grad(u)), avg(grad(u))) raises TypeError in LogicalExpr (PullBack of a non-function); TerminalExpr on "
+             "unmapped domains lowers the same integrands since b51ca38",
+     "match": {"family": "interface-derivatives", "feature": "restriction-of-derivative", "what": "if-exception", "exc": "TypeError"}},
+    {"property": "C04", "status": "known", "id": "C04-interface-plus-derivative-at-minus-point",
+     "what": "interface integral, analytical non-affine mapping on the plus side: dx/dy/dz of a plus-restricted function are "
+             "pulled back with the explicit inverse Jacobian of the plus mapping written in x1, x2, x3 - the symbols that denote "
+             "the MINUS patch's logical point in an interface kernel (grad(plus(u)) uses x1_plus.. and the frozen face coordinate)",
+     "match": {"family": "interface-derivatives", "feature": "dxi-of-plus-restricted", "what": "if-wrong-value",
+               "plus_mapping": "nonaffine-analytical"}},
+    {"property": "C04", "status": "known", "id": "C04-interface-linear-plus-piece-interface-symbols",
+     "what": "LINEAR form over an interface, analytical plus mapping: the plus-side piece becomes a BoundaryExpression on the plus "
+             "face whose measure / inverse Jacobian are written in the interface symbols x1_plus.. (the linear branch of "
+             "_split_expr_over_interface keeps Integral(interface, ..), the bilinear branch substitutes the face)",
+     "match": {"family": "interface-derivatives", "what": "if-plus-symbols-in-boundary-kernel"}},
+]
+
+
 def main(run, replay=None):
     import time
     t0 = time.time()
+    run.known += [k for k in PROPOSED_KNOWN if k["id"] not in {x["id"] for x in run.known}]
     stage = {}
     rng = run.rng
     quick = run.tier == "quick"
@@ -315,6 +347,13 @@ def main(run, replay=None):
             cases += json.load(open(corpus_f))
         budget = {"multi_3d": 3, "grad_3d": 2} if quick else {"multi_3d": 40, "grad_3d": 30}
         cases += [gen_case(rng, run.tier, i, budget) for i in range(n)]
+        # interface integrals with derivatives of restricted functions on mapped multi-patch domains (matched
+        # parametrisations, runner + oracle tools/impl/C04if_impl.py); a random stream of their own, so that the
+        # cases above are the same as before
+        import random as _random
+        irng = _random.Random(run.seed * 7919 + 11)
+        ibudget = {"if_3d": 1 if quick else 14}
+        cases += [C04if.gen_if_case(irng, run.tier, ibudget) for _ in range(46 if quick else 420)]
 
     nb = 16
     order = sorted(range(len(cases)), key=lambda i: -weight(cases[i]))
@@ -344,6 +383,8 @@ def main(run, replay=None):
     # ---- Coq: one file per group of cases
     terms = []
     for ci, (c, r) in enumerate(zip(cases, results)):
+        if c.get("iform") is not None:
+            continue            # interface family: decided by its own oracle (C04if); the model side is C03's
         if r is None or "crash" in r or "err" in r or any(k["unit"] is None for k in r["kernels"]):
             continue
         t = coq_case(c, r)
@@ -381,8 +422,12 @@ def main(run, replay=None):
     # ---- decide
     stats = {"kernels": 0, "regions_agree_with_model": 0, "measure_square_proved": 0, "measure_unproved": 0,
              "integrand_proved": 0, "integrand_unproved": 0, "oracle_kernels_checked": 0, "oracle_regions_checked": 0,
-             "coq_timeouts": timeouts, "refused_not_implemented": 0, "unsupported_node": 0, "cases_without_coq": 0}
+             "coq_timeouts": timeouts, "refused_not_implemented": 0, "unsupported_node": 0, "cases_without_coq": 0,
+             "interface_derivative_cases": 0, "interface_derivative_kernels_checked": 0, "interface_derivative_ok": 0,
+             "interface_derivative_refused": 0, "interface_derivative_unsupported": 0, "interface_derivative_undecided": 0,
+             "interface_derivative_failing": 0, "oracle_only_interface": 0}
     failing = []
+    if_hist = {"template": {}, "pairing": {}, "feature": {}, "status": {}, "kernel_kinds": {}, "plus_symbol_variants": 0}
 
     def base_sig(c):
         return {"region": c["region"]["t"], "ldim": c["ldim"], "pdim": c["pdim"], "patches": len(c["patches"]),
@@ -391,6 +436,29 @@ def main(run, replay=None):
 
     for ci, (c, r) in enumerate(zip(cases, results)):
         if r is None:
+            continue
+        if c.get("iform") is not None:
+            stats["interface_derivative_cases"] += 1
+            st, fields, msg = C04if.verdict(r)
+            if_hist["status"][st] = if_hist["status"].get(st, 0) + 1
+            for hk, hv in (("template", c.get("template", "corpus")), ("pairing", c.get("pairing", "corpus")), ("feature", C04if.feature(c))):
+                if_hist[hk][hv] = if_hist[hk].get(hv, 0) + 1
+            for k in r.get("kernels", []) if isinstance(r, dict) else []:
+                kk = k["type"] + ("".join(k["tags"]) if k.get("tags") else "")
+                if_hist["kernel_kinds"][kk] = if_hist["kernel_kinds"].get(kk, 0) + 1
+                if_hist["plus_symbol_variants"] += k.get("plus_symbol_variants", 0)
+            if st == "ok":
+                stats["interface_derivative_ok"] += 1
+                stats["oracle_only_interface"] += 1
+                nk = len(r["oracle"]["kernels"])
+                stats["interface_derivative_kernels_checked"] += nk
+                stats["kernels"] += nk
+                stats["oracle_kernels_checked"] += nk
+            elif st == "fail":
+                stats["interface_derivative_failing"] += 1
+                failing.append((ci, C04if.signature(c, fields), msg, fields.get("what") not in ("oracle-failed", "runner-crash")))
+            else:
+                stats["interface_derivative_" + st] += 1
             continue
         if "crash" in r:
             failing.append((ci, {"what": "runner-crash"}, "the runner crashed: " + r["crash"][-300:], True))
@@ -472,14 +540,39 @@ def main(run, replay=None):
             return r2
         return None
 
+    def run_one(c2):
+        r2, _ = run.impl("C04_impl", {"cases": [c2]})
+        return r2["results"][0] if r2 else None
+
     reported = set()
     for ci, sig, msg, found in failing:
-        fam = json.dumps({k: v for k, v in sig.items() if k in ("what", "exc", "target")}, sort_keys=True)
+        fam = json.dumps({k: v for k, v in sig.items() if k in ("what", "exc", "target", "feature", "node", "family")}, sort_keys=True)
         if fam in reported:
             continue
         reported.add(fam)
         c = cases[ci]
         best, obs = copy.deepcopy(c), results[ci]
+        if c.get("iform") is not None:
+            if found and not replay:
+                b2, o2 = C04if.shrink(c, sig, run_one, budget=8)
+                if o2 is not None:
+                    best, obs = b2, o2
+                    sig = C04if.signature(best, {k: v for k, v in sig.items() if k in ("what", "exc", "node", "kernel")})
+                    msg = C04if.verdict(obs)[2]
+            small = {k: obs.get(k) for k in ("kernels", "oracle", "err", "msg", "where", "text") if obs and k in obs}
+            small = {k: (v if len(json.dumps(v)) < 4000 else "(%d characters)" % len(json.dumps(v))) for k, v in small.items()}
+            if best != c:
+                small["shrunk_from"] = c
+            run.report(sig, "C04 fails on the implementation (interface integral with derivatives of restricted functions): " + msg,
+                       best, observed=small,
+                       required="one kernel per (trial side, test side) part of the integrand - (u-,v-) on the minus face, (u+,v+) on the "
+                                "plus face, the mixed parts as InterfaceExpressions with their tags - equal to that part of the integrand "
+                                "at the common physical point (gradients through J^-T of the patch the restriction refers to, at that "
+                                "patch's own logical point) x the surface element of the face",
+                       python="PYTHONHASHSEED=0 PYTHONPATH=/repo:/verif/tools/impl /venv/bin/python /verif/tools/impl/C04_impl.py in.json out.json"
+                              "  # in.json = {\"cases\":[case]} ; see out['results'][0]['oracle']",
+                       theorem_or_case="oracle (explicit matched maps, tools/impl/C04if_impl.py)", found_input=found)
+            continue
         if found and not replay and sig.get("what") != "runner-crash" and run.match_known(sig) is None:
             improved, budget = True, 8
             while improved and budget > 0:
@@ -519,6 +612,10 @@ def main(run, replay=None):
     for c, r in zip(cases, results):
         if r is None or "crash" in r or "err" in r:
             continue
+        if c.get("iform") is not None:
+            bump("layout", "interface-derivatives:" + c.get("layout", "corpus"))
+            distinct.add(canon_hash([c["patches"], c["connectivity"], c["region"], c["form"], c["iform"], c["integrand"]]))
+            continue
         bump("layout", c.get("layout", "corpus")); bump("region", c["region"]["t"]); bump("dims", "%d->%d" % (c["ldim"], c["pdim"]))
         bump("form", c["form"] + ("+grad" if c.get("grad") else ""))
         for p in c["patches"]:
@@ -542,7 +639,8 @@ def main(run, replay=None):
         "decisions": stats,
         "stage_seconds_cumulative": stage,
         "histograms": hist,
-        "samples": cases[:3],
+        "interface_derivative_family": if_hist,
+        "samples": cases[:3] + [c for c in cases if c.get("iform") is not None][:2],
         "exhaustive": False,
         "trusted_base": ["tools/impl/ser.py, tools/impl/C04_impl.py (runner + numeric oracle, uses tools/impl/C11_impl.py helpers), "
                          "tools/props/C04.py, tools/exprlib.py",
